@@ -289,7 +289,7 @@ def main(tier, seed):
     code, ev = E.run_property(mod, tier, seed)
     tools = []
     rng = random.Random(seed * 7919 + 3)
-    wdir = os.path.join(B.WORK, ID)
+    wdir = B.workdir(ID)
     # AddressSanitizer (nightly)
     try:
         asan = B.build("release", (), kind="asan")   # what users ship: no debug_assert in front of the read
@@ -314,10 +314,10 @@ def main(tier, seed):
                 r = random.Random(seed * 104729 + i)
                 futs.append(ex.submit(run_tool, "miri%d" % i, cmd + ["--"], env, sanitizer_requests(r, n_miri), wdir, 3000))
             tools += [f.result() for f in futs]
-        # valgrind memcheck on the plain release binary
-        rel = B.build("release", ())
-        tools.append(run_tool("memcheck", ["valgrind", "--error-exitcode=78", "-q", rel], dict(os.environ),
-                              sanitizer_requests(rng, 30000), wdir, 3000))
+    # valgrind memcheck on the plain release binary (what users ship, no instrumentation in the build)
+    rel = B.build("release", ())
+    tools.append(run_tool("memcheck", ["valgrind", "--error-exitcode=78", "-q", rel], dict(os.environ),
+                          sanitizer_requests(rng, 10000 if tier == "quick" else 100000), wdir, 3000))
     code = E.fold_tool_runs(ID, code, ev, tools, wdir, tier, seed)
     ev["wall_s"] = round(time.time() - t0, 2)
     E.write_evidence(ID, ev)
